@@ -116,6 +116,9 @@ def check(scn):
             return "LabelDirichletInjector: resampled rows do not come from the window"
     elif name == "FeatureCoverInjector":
         ss = scn.get("sample_size", 10)
+        vals, cnts = np.unique(A[:, 3], return_counts=True)
+        if ss // len(vals) > cnts.min():
+            return None     # outside the injector's domain: a group is smaller than the requested sample per group
         out = inj(d, col("grp", 3), ss, random_state=3)
         O = arr(out)
         exp = None
